@@ -384,7 +384,7 @@ def native_ok(cls, v, path='arg', width=True):
     o = orig(cls)
 
     def bad():
-        return (path, decl_name(cls), recv_name(v) + ':' + repr(v)[:60])
+        return ('%s, declared class %s' % (path, o.__name__), decl_name(cls), recv_name(v) + ':' + repr(v)[:60])
 
     if issubclass(o, Array):
         if type(v) is not list:
@@ -961,7 +961,14 @@ def oracle_xml_retag_all(check, tier):
             {'name': 'ints', 'ty': ('arr', ('prim', 'int')), 'min': 0, 'max': 1, 'nillable': True, 'kind': 'elem'},
             {'name': 'bases', 'ty': ('arr', ('ref', 1)), 'min': 0, 'max': 1, 'nillable': True, 'kind': 'elem'},
             {'name': 'm', 'ty': ('prim', 'date'), 'min': 0, 'max': None, 'nillable': True, 'kind': 'elem'},
-            {'name': 'lv', 'ty': ('ref', 0), 'min': 0, 'max': 1, 'nillable': True, 'kind': 'elem'}]}]}
+            {'name': 'lv', 'ty': ('ref', 0), 'min': 0, 'max': 1, 'nillable': True, 'kind': 'elem'},
+            # arrays whose item types derive from one another as Spyne classes but not as native types
+            {'name': 'decs', 'ty': ('arr', ('prim', 'dec')), 'min': 0, 'max': 1, 'nillable': True, 'kind': 'elem'},
+            {'name': 'dbls', 'ty': ('arr', ('prim', 'dbl')), 'min': 0, 'max': 1, 'nillable': True, 'kind': 'elem'},
+            {'name': 'strs', 'ty': ('arr', ('prim', 'text')), 'min': 0, 'max': 1, 'nillable': True, 'kind': 'elem'},
+            {'name': 'uuids', 'ty': ('arr', ('prim', 'uuid')), 'min': 0, 'max': 1, 'nillable': True, 'kind': 'elem'},
+            {'name': 'dts', 'ty': ('arr', ('prim', 'dt')), 'min': 0, 'max': 1, 'nillable': True, 'kind': 'elem'},
+            {'name': 'dates', 'ty': ('arr', ('prim', 'date')), 'min': 0, 'max': 1, 'nillable': True, 'kind': 'elem'}]}]}
     classes = build_spyne(desc)
     params = [('ref', 4), ('prim', 'dec'), ('arr', ('ref', 2))]
     apps = {}
@@ -979,7 +986,10 @@ def oracle_xml_retag_all(check, tier):
     base = ('obj', 1, [('int', 5), ('int', 6)])
     sub = ('obj', 2, [('int', 7), ('int', 8), ('text', 'tt')])
     holder = ('obj', 4, [base, ('obj', 3, [('text', 'q')]), ('list', [('int', 1), ('int', 2)]), ('list', [base, sub]),
-                         ('list', [('date', (2020, 1, 2))]), lv])
+                         ('list', [('date', (2020, 1, 2))]), lv,
+                         ('list', [('dec', '1.50'), ('dec', '2')]), ('list', [('dbl', 1.5)]), ('list', [('text', 'x'), ('text', '7')]),
+                         ('list', [('uuid', '0123456789abcdef0123456789abcdef')]), ('list', [('dt', (2020, 1, 2, 3, 4, 5))]),
+                         ('list', [('date', (2020, 1, 2))])])
     v = ('obj', mcid, [holder, ('dec', '1.50'), ('list', [sub])])
     doc, _ = enc.document(('ref', mcid), v, TNS, 'f')
     elts = [e for e in doc.iter() if isinstance(e.tag, str)]
@@ -1669,6 +1679,208 @@ def oracle_http(check, tier):
                         break
 
 
+# ====================================================================== sequences on one long-lived application
+def wsgi_post(app_wsgi, body, ctype):
+    status = []
+    env = {'REQUEST_METHOD': 'POST', 'PATH_INFO': '/', 'QUERY_STRING': '', 'SERVER_NAME': 'localhost', 'SERVER_PORT': '80',
+           'SCRIPT_NAME': '', 'wsgi.url_scheme': 'http', 'wsgi.input': io.BytesIO(body), 'wsgi.errors': io.StringIO(),
+           'wsgi.version': (1, 0), 'wsgi.multithread': False, 'wsgi.multiprocess': False, 'wsgi.run_once': False,
+           'CONTENT_LENGTH': str(len(body)), 'CONTENT_TYPE': ctype, 'SERVER_PROTOCOL': 'HTTP/1.1'}
+    out = app_wsgi(env, lambda st, hd, exc=None: status.append(st))
+    b = b''.join(out)
+    if hasattr(out, 'close'):
+        out.close()
+    return (status[0] if status else '?'), b
+
+
+SEQ_DESC = {'classes': [
+    {'ns': TNS, 'name': 'Animal', 'parent': None, 'fields': [
+        {'name': 'name', 'ty': ('prim', 'text'), 'min': 0, 'max': 1, 'nillable': True, 'kind': 'elem'},
+        {'name': 'legs', 'ty': ('prim', 'int'), 'min': 0, 'max': 1, 'nillable': True, 'kind': 'elem'}]},
+    {'ns': TNS, 'name': 'Dog', 'parent': 0, 'fields': [
+        {'name': 'tricks', 'ty': ('arr', ('prim', 'text')), 'min': 0, 'max': 1, 'nillable': True, 'kind': 'elem'}]},
+    {'ns': TNS, 'name': 'Puppy', 'parent': 1, 'fields': [
+        {'name': 'age', 'ty': ('prim', 'u8'), 'min': 0, 'max': 1, 'nillable': True, 'kind': 'elem'}]},
+    {'ns': TNS, 'name': 'Vehicle', 'parent': None, 'fields': [
+        {'name': 'wheels', 'ty': ('prim', 'int'), 'min': 0, 'max': 1, 'nillable': True, 'kind': 'elem'},
+        {'name': 'plate', 'ty': ('prim', 'text'), 'min': 0, 'max': 1, 'nillable': True, 'kind': 'elem'}]},
+    {'ns': TNS, 'name': 'Car', 'parent': 3, 'fields': [
+        {'name': 'doors', 'ty': ('prim', 'i32'), 'min': 0, 'max': 1, 'nillable': True, 'kind': 'elem'}]},
+    {'ns': 'urn:u', 'name': 'Lone', 'parent': None, 'fields': [
+        {'name': 's', 'ty': ('prim', 'text'), 'min': 0, 'max': 1, 'nillable': True, 'kind': 'elem'}]},
+    {'ns': TNS, 'name': 'Holder', 'parent': None, 'fields': [
+        {'name': 'a', 'ty': ('ref', 0), 'min': 0, 'max': 1, 'nillable': True, 'kind': 'elem'},
+        {'name': 'v', 'ty': ('ref', 3), 'min': 0, 'max': 1, 'nillable': True, 'kind': 'elem'},
+        {'name': 'l', 'ty': ('ref', 5), 'min': 0, 'max': 1, 'nillable': True, 'kind': 'elem'},
+        {'name': 'as_', 'ty': ('arr', ('ref', 0)), 'min': 0, 'max': 1, 'nillable': True, 'kind': 'elem'},
+        {'name': 'vs', 'ty': ('arr', ('ref', 3)), 'min': 0, 'max': 1, 'nillable': True, 'kind': 'elem'},
+        {'name': 'ma', 'ty': ('ref', 0), 'min': 0, 'max': None, 'nillable': True, 'kind': 'elem'},
+        {'name': 'mv', 'ty': ('ref', 3), 'min': 0, 'max': None, 'nillable': True, 'kind': 'elem'}]}]}
+SEQ_PARAMS = [('ref', 0), ('ref', 3), ('ref', 6), ('arr', ('ref', 3)), ('arr', ('ref', 0)), ('ref', 5)]
+
+
+def wrapper_positions(doc, names, path=()):
+    """paths of the wrapper dicts of a document: single-key dicts whose key is a class name"""
+    out = []
+    if isinstance(doc, dict):
+        if len(doc) == 1:
+            (k, v), = doc.items()
+            if k in names:
+                out.append(path)
+        for k, v in doc.items():
+            out.extend(wrapper_positions(v, names, path + (k,)))
+    elif isinstance(doc, list):
+        for i, v in enumerate(doc):
+            out.extend(wrapper_positions(v, names, path + (i,)))
+    return out
+
+
+def rename_wrapper(doc, path, key):
+    d = copy.deepcopy(doc)
+    node = d
+    for p in path:
+        node = node[p]
+    (k, v), = list(node.items())
+    del node[k]
+    node[key] = v
+    return d
+
+
+def oracle_sequences(check, tier):
+    """SEQUENCES of requests against one long-lived application / protocol instance (through ServerBase and through
+    WsgiApplication): valid polymorphic requests first, then every wrapper key / xsi:type seen so far at every
+    position where another type is declared, then valid ones again, then the hostile ones in another order.  The
+    theorems are about a stateless deserialiser; this is what covers state kept between requests (caches keyed
+    by class name, xsi:type, parser state)."""
+    from lxml import etree
+    from spyne.protocol.xml import XmlDocument
+    from spyne.protocol.soap import Soap11, Soap12
+    from spyne.server.wsgi import WsgiApplication
+    rng = check.rng
+    desc = SEQ_DESC
+    classes = build_spyne(desc)
+    names = [c['name'] for c in desc['classes']]
+
+    def run_sequence(label, val, pcs, send, warm, hostile, mk_replay):
+        sent_ok = []
+        order = list(hostile)
+        for rnd in range(2):
+            for w in warm:
+                res = send(w)
+                if res[0] == 'called':
+                    sent_ok.append(w)
+                judge_call(check, 'sequence', label, val, pcs, res, ['valid polymorphic request'], mk_replay(sent_ok[:-1], w))
+            for h, mut in order:
+                res = send(h)
+                check.count(('sequence', label, val, rnd, repr(h)[:400]))
+                judge_call(check, 'sequence', label, val, pcs, res, [mut], mk_replay(sent_ok, h))
+            rng.shuffle(order)
+
+    # ---- dict documents, wrappers on
+    for pname in ('json', 'yaml', 'msgpack'):
+        for driver in ('ServerBase', 'wsgi'):
+            if driver == 'wsgi' and pname != 'json':
+                continue
+            prot = make_prot(pname, 'soft', True)
+            app, cap, in_msg = build_app(classes, SEQ_PARAMS, prot, type(prot)())
+            d2 = msg_desc(desc, classes, in_msg)
+            mcid = len(d2['classes']) - 1
+            pcs = list(in_msg._type_info.values())
+            enc = DictEnc(rng, d2, pname, True)
+            wsgi = WsgiApplication(app) if driver == 'wsgi' else None
+
+            def send(doc, app=app, cap=cap, wsgi=wsgi, pname=pname):
+                body = encode_body(pname, {b'f': doc['f']} if pname == 'msgpack' else doc)
+                if wsgi is None:
+                    return drive(app, body, cap)
+                del cap.calls[:]
+                del cap.headers[:]
+                try:
+                    wsgi_post(wsgi, body, 'application/json')
+                except Exception as e:
+                    return ('crash', type(e).__name__)
+                return ('called', cap.calls[-1]) if cap.calls else ('fault', 'not called')
+
+            warm, hostile = [], []
+            for j in range(3 if tier == 'quick' else 8):
+                v = gen_value(rng, d2, ('ref', mcid), 3, False, poly=True)
+                body, _ = enc.document(('ref', mcid), v)
+                doc = body if isinstance(body, dict) and list(body.keys()) == ['f'] else {'f': body}
+                warm.append(doc)
+                for path in wrapper_positions(doc['f'], names + ['f'], ('f',)):
+                    for key in names + ['f', 'Nope']:
+                        hostile.append((rename_wrapper(doc, path, key), 'wrapper key %s at %s' % (key, '/'.join(map(str, path)))))
+            if tier == 'quick' and len(hostile) > 260:
+                hostile = rng.sample(hostile, 260)
+            label = type(prot).__name__ + '@sequence' + ('' if driver == 'ServerBase' else '/wsgi')
+
+            def mk_replay(before, doc, pname=pname, driver=driver):
+                return {'kind': 'sequence-dict', 'protocol': pname, 'driver': driver, 'validator': 'soft', 'universe': desc,
+                        'params': SEQ_PARAMS, 'before': [repr(x) for x in before], 'document': repr(doc)}
+            run_sequence(label, 'soft', pcs, send, warm, hostile, mk_replay)
+
+    # ---- the XML family: xsi:type
+    for pname, pcls, envns in (('XmlDocument', XmlDocument, None), ('Soap11', Soap11, SOAP_ENV), ('Soap12', Soap12, SOAP12_ENV)):
+        for val in (None, 'soft'):
+            for driver in ('ServerBase', 'wsgi'):
+                if driver == 'wsgi' and (pname != 'XmlDocument' or val is None):
+                    continue
+                app, cap, in_msg = build_app(classes, SEQ_PARAMS, pcls(validator=val), pcls())
+                d2 = msg_desc(desc, classes, in_msg)
+                mcid = len(d2['classes']) - 1
+                pcs = list(in_msg._type_info.values())
+                reg = registry_of(app, classes + [in_msg])
+                keys = sorted(k for k, t, _ in reg if k.startswith('{'))
+                enc = XmlEnc(rng, d2, keys, mutate_p=0.0)
+                wsgi = WsgiApplication(app) if driver == 'wsgi' else None
+
+                def wrap(d, envns=envns):
+                    if envns is None:
+                        return etree.tostring(d)
+                    env = etree.Element('{%s}Envelope' % envns, nsmap={'soap': envns})
+                    etree.SubElement(env, '{%s}Body' % envns).append(copy.deepcopy(d))
+                    return etree.tostring(env)
+
+                def send(body, app=app, cap=cap, wsgi=wsgi):
+                    if wsgi is None:
+                        return drive(app, body, cap)
+                    del cap.calls[:]
+                    del cap.headers[:]
+                    try:
+                        wsgi_post(wsgi, body, 'text/xml; charset=utf-8')
+                    except Exception as e:
+                        return ('crash', type(e).__name__)
+                    return ('called', cap.calls[-1]) if cap.calls else ('fault', 'not called')
+
+                values = []
+                for k in keys:
+                    ns, name = xsi_key_to_qname(k)
+                    values.append(enc.lexical(ns, name) if ns in enc.prefix else name)
+                warm, hostile = [], []
+                for j in range(2 if tier == 'quick' else 6):
+                    v = gen_value(rng, d2, ('ref', mcid), 3, False, poly=True)
+                    doc, _ = enc.document(('ref', mcid), v, TNS, 'f')
+                    warm.append(wrap(doc))
+                    n_el = len([x for x in doc.iter() if isinstance(x.tag, str)])
+                    for idx in range(n_el):
+                        for vt in values:
+                            d = copy.deepcopy(doc)
+                            e = [x for x in d.iter() if isinstance(x.tag, str)][idx]
+                            if e.get('{%s}type' % XSI) == vt:
+                                continue
+                            e.set('{%s}type' % XSI, vt)
+                            hostile.append((wrap(d), '%s xsi:type=%s' % (etree.QName(e).localname, vt)))
+                cap_n = 220 if tier == 'quick' else 2000
+                if len(hostile) > cap_n:
+                    hostile = rng.sample(hostile, cap_n)
+                label = pname + '@sequence' + ('' if driver == 'ServerBase' else '/wsgi')
+
+                def mk_replay(before, body, pname=pname, val=val, driver=driver):
+                    return {'kind': 'sequence-xml', 'protocol': pname, 'driver': driver, 'validator': val, 'universe': desc,
+                            'params': SEQ_PARAMS, 'before': [x.decode() for x in before], 'body': body.decode()}
+                run_sequence(label, val, pcs, send, warm, hostile, mk_replay)
+
+
 # ====================================================================== witnesses (always run, whatever the seed)
 def oracle_witnesses(check, tier):
     """the inputs of the refutation theorems and of every recorded finding / repaired defect, on a fixed interface"""
@@ -1785,7 +1997,10 @@ def run(check):
         'and None.  A case is distinct by (protocol, configuration, entry point, declared type, document).  Oracle: generated services '
         'with the rich leaf set (also Decimal, DateTime, Time, Duration, Uuid, AnyUri) through ServerBase / WSGI for XmlDocument, '
         'Soap11, Soap12 (with a SOAP header class), JsonDocument, YamlDocument, MessagePackDocument and HttpRpc (GET), and a fixed '
-        'interface on which every element position is retagged with every registered class key.')
+        'interface on which every element position is retagged with every registered class key (including Array classes whose item '
+        'types derive from one another only as Spyne classes: decimal/double/integer, string/uuid, dateTime/date), and SEQUENCES '
+        'of requests on one long-lived application (two unrelated class trees, wrappers on; JSON/YAML/MessagePack and '
+        'XmlDocument/Soap11/Soap12; ServerBase and WSGI).')
     check.trusted = list(lib.COMMON_TRUSTED) + [
         'the oracle predicate native_ok (harness/c04.py): isinstance / value-space membership against the declared Spyne classes; '
         'an int where Double or Decimal is declared is accepted (numeric tower), a bool is an int; integer width is demanded only '
@@ -1809,6 +2024,11 @@ def run(check):
         'HttpRpc (SimpleDictDocument) and the SOAP envelope / header selection are not modelled in Coq: oracle only (headers go '
         'through the modelled from_element)',
         'MessagePack map keys are ASCII; YAML documents contain no native timestamps / sets / binary tags',
+        'history independence: the theorems are about a stateless deserialiser (a function of configuration, universe, registry and '
+        'document); that what a request delivers does not depend on the requests served before by the same application / protocol '
+        'instance is NOT proved: it is covered by the sequence oracle (valid polymorphic requests, then every wrapper key / xsi:type '
+        'seen so far at every position where another type is declared, twice, on one long-lived application, through ServerBase and '
+        'WsgiApplication)',
         'validator=lxml: libxml2 schema validation runs first, then the same deserialiser as validator=None (the theorem covers all '
         'documents, hence those that pass the schema)',
     ]
@@ -1830,6 +2050,7 @@ def run(check):
     lib.flush_correspondences(check)
     oracle_dict(check, tier)
     oracle_http(check, tier)
+    oracle_sequences(check, tier)
     check.extra['oracle_requests'] = dict(sorted(STATS.items()))
     return check.finish()
 
@@ -1894,6 +2115,43 @@ def replay(check, path):
                 st = ('exception', type(e).__name__)
             res = ('called', cap.calls[-1]) if cap.calls else ('not called', st)
         print('result:', res[0], [recv_name(a) + ':' + repr(a)[:80] for a in res[1]] if res[0] == 'called' else res[1:])
+        if res[0] == 'called':
+            for i, (pc, a) in enumerate(zip(in_msg._type_info.values(), res[1])):
+                bad = bad or native_ok(pc, a, 'p%d' % i, width=val is not None)
+    elif kind in ('sequence-dict', 'sequence-xml'):
+        # the whole history on ONE application: the valid requests that preceded, then the recorded one
+        from spyne.server.wsgi import WsgiApplication
+        params = _retuple(r['params'])
+        val = r.get('validator')
+        if kind == 'sequence-dict':
+            prot = make_prot(r['protocol'], val, True)
+            app, cap, in_msg = build_app(classes, params, prot, type(prot)())
+            def body_of(x):
+                d = _eval_doc(x)
+                return encode_body(r['protocol'], {b'f': d['f']} if r['protocol'] == 'msgpack' else d)
+            bodies = [body_of(x) for x in r['before']] + [body_of(r['document'])]
+            ctype = 'application/json'
+        else:
+            from spyne.protocol.xml import XmlDocument
+            from spyne.protocol.soap import Soap11, Soap12
+            pcls = {'XmlDocument': XmlDocument, 'Soap11': Soap11, 'Soap12': Soap12}[r['protocol']]
+            app, cap, in_msg = build_app(classes, params, pcls(validator=val), pcls())
+            bodies = [x.encode() for x in r['before']] + [r['body'].encode()]
+            ctype = 'text/xml; charset=utf-8'
+        wsgi = WsgiApplication(app) if r.get('driver') == 'wsgi' else None
+        res = None
+        for i, b in enumerate(bodies):
+            if wsgi is None:
+                res = drive(app, b, cap)
+            else:
+                del cap.calls[:]
+                try:
+                    wsgi_post(wsgi, b, ctype)
+                except Exception as e:
+                    pass
+                res = ('called', cap.calls[-1]) if cap.calls else ('not called',)
+            print('request %d/%d: %s' % (i + 1, len(bodies), res[0]))
+        print('last result:', res[0], [recv_name(a) + ':' + repr(a)[:80] for a in res[1]] if res[0] == 'called' else res[1:])
         if res[0] == 'called':
             for i, (pc, a) in enumerate(zip(in_msg._type_info.values(), res[1])):
                 bad = bad or native_ok(pc, a, 'p%d' % i, width=val is not None)
